@@ -83,6 +83,8 @@ class State:
 
 
 def sort_of(ty):
+    if ty.k in ("int", "real") and ty.opt:
+        return num.opt_dt(ty)[0]
     if ty.k == "bool":
         return B
     if ty.k == "real":
